@@ -6,7 +6,7 @@ import sys
 import threading
 
 from vf import conf as C
-from vf.sched import Scheduler, discover_shared_writers
+from vf.sched import PingPong, Scheduler, discover_shared_writers
 from vf.selftests import selftest
 
 LEVEL = "exploration"
@@ -68,7 +68,7 @@ def floors(tier):
     q = tier == "quick"
     return {"schedules.single": 3000 if q else 100000, "points.in_shared_write_code": 300 if q else 5000, "b_ran_inside_a": 3000, "points.line": 2000,
             "points.instruction": 300, "shared_writers_discovered": 1, "nested.reentries": 200, "stress.runs": 200, "stress.overlapping_compiles": 1,
-            "schedules.double": 100 if q else 5000}
+            "schedules.double": 100 if q else 5000, "schedules.pingpong": 1000 if q else 50000, "pingpong.a_parked_in_shared_write_code": 300}
 
 
 def make_instance(sc):
@@ -186,10 +186,42 @@ def run_schedule(ctx, sched, case, record=True):
     return errs, reached
 
 
+def run_pingpong(ctx, sched, case, record=True):
+    sc = next(s for s in SCENARIOS if s["name"] == case["scenario"])
+    ca, cb = tuple(case["calls"][0]), tuple(case["calls"][1])
+    md = make_instance(sc)
+    budgets = {"A": 40 * max(200, total_events(sched, sc, ca)[0]) + 2000, "B": 40 * max(200, total_events(sched, sc, cb)[0]) + 2000}
+    res = sched.run_pp(lambda: do_call(md, *ca), lambda: do_call(md, *cb), case["k1"], case["k2"], budgets)
+    errs = []
+    reached = "A" in sched.park_at and "B" in sched.park_at
+    if record:
+        ctx.count("schedules.pingpong" if reached else "schedules.pingpong_degenerate")
+        if sched.parked_in_fine.get("A"):
+            ctx.count("pingpong.a_parked_in_shared_write_code")
+    for r, c in (("A", ca), ("B", cb)):
+        got = res.get(r)
+        if got is None:
+            if r == "A" or "A" in sched.park_at:
+                errs.append(("call-missing", f"call {r} {c} produced no result"))
+            continue
+        want = _solo[(sc["name"], c[0], c[1])]
+        at = f"A parked at {sched.park_at.get('A', '?')}, B parked at {sched.park_at.get('B', '(ran to completion)')}, then A resumed before B"
+        if got[0] == "budget":
+            errs.append(("interference:no-termination", f"call {r} {c} exceeded its step budget ({got[1]}); {at}"))
+        elif got[0] == "exc":
+            errs.append(("interference:exception", f"call {r} {c} raised {got[1]}; {at}"))
+        elif got[1] != want:
+            errs.append(("interference:wrong-result", f"call {r} {c} returned {str(got[1][0])[:160]!r} instead of its solo result {str(want[0])[:160]!r}; {at}"))
+    return errs, reached
+
+
 def check_case(ctx, sched, case):
     ctx.count("evaluations")
     ctx.current = case
-    errs, reached = run_schedule(ctx, sched, case)
+    if case.get("mode") == "pingpong":
+        errs, reached = run_pingpong(ctx, sched, case)
+    else:
+        errs, reached = run_schedule(ctx, sched, case)
     if reached:
         ctx.nontrivial(case["scenario"], repr(case["calls"]), case["k1"], case.get("k2"))
     for key in sorted({k for k, _ in errs}):
@@ -366,7 +398,7 @@ def replay(ctx, case):
     if case.get("kind") in ("core", "render_rule", "highlight", "inline_rule"):
         nested_case(ctx, case)
         return
-    sched = Scheduler(_libdir, _fine)
+    sched = PingPong(_libdir, _fine)
     sched.install()
     try:
         check_case(ctx, sched, case)
@@ -379,10 +411,41 @@ def run(ctx):
     rng = ctx.rng
     ctx.count("shared_writers_discovered", len(_fine))
     ctx.info["shared_writers"] = sorted(f"{os.path.basename(c.co_filename)}:{c.co_name}" for c in _fine)
-    sched = Scheduler(_libdir, _fine)
+    sched = PingPong(_libdir, _fine)
     sched.install()
     try:
         idx = 0
+        # ping-pong schedules (A1 B1 A2 B2): every event of A inside shared-write code x a spread of points of B, plus random pairs
+        for sc in (SCENARIOS[:2] if ctx.quick else SCENARIOS):
+            for calls in (CALLSETS[:1] + CALLSETS[2:4] + CALLSETS[6:7] if ctx.quick else CALLSETS):
+                ta, _fa = total_events(sched, sc, calls[0])
+                tb2, _fb = total_events(sched, sc, calls[1])
+                # locate A's events that fall inside shared-write code
+                md0 = make_instance(sc)
+                fine_ks = []
+                orig_event = sched._event
+
+                def spy(code, where, fine, _o=orig_event):
+                    _o(code, where, fine)
+                    if fine and sched.roles.get(threading.get_ident()) == "A":
+                        fine_ks.append(sched.counts.get("A", 0))
+                sched._event = spy
+                try:
+                    sched.run([("A", lambda: do_call(md0, *calls[0]))], {}, {})
+                finally:
+                    sched._event = orig_event
+                spread = [max(1, int(tb2 * f)) for f in ((0.15, 0.6) if ctx.quick else (0.03, 0.1, 0.25, 0.5, 0.75, 0.9, 0.98))]
+                if ctx.quick and len(fine_ks) > 150:
+                    # long shared-write stretches (first-use compile): every 4th bytecode; short ones (a test-and-set window) completely
+                    fine_ks = fine_ks[(ctx.seed % 4)::4]
+                ks = [(k1, k2) for k1 in fine_ks for k2 in spread]
+                for _ in range(60 if ctx.quick else 1500):
+                    ks.append((rng.randint(1, ta), rng.randint(1, tb2)))
+                for (k1, k2) in ks:
+                    idx += 1
+                    if not ctx.mine(idx):
+                        continue
+                    check_case(ctx, sched, {"mode": "pingpong", "scenario": sc["name"], "calls": [list(calls[0]), list(calls[1])], "k1": k1, "k2": k2})
         for sc in SCENARIOS:
             for calls in CALLSETS:
                 total, fine = total_events(sched, sc, calls[0])
